@@ -106,7 +106,8 @@ fn wt_text<'a>(e: &'a Elem, c: &'a Compared) -> &'a str {
 
 fn differs(e: &Elem, c: &Compared) -> Option<bool> {
     let p = c.pinned.as_ref()?;
-    if c.wt.status == Status::Timeout {
+    if c.wt.status == Status::Timeout || matches!(c.wt.status, Status::Infra(_)) {
+        // a case the harness itself could not run is inconclusive, never a verdict
         return None;
     }
     // a batch run leaves an echoing input as it is; on standard input it is echoed: both are the input
@@ -147,6 +148,9 @@ pub fn run(tier: &str, seed: u64, out: &Path) -> i32 {
     let thorough = tier == "thorough";
     let sweep = tier == "sweep" || tier == "sweepb";
     let mut rng = Rng::new(seed ^ 0xc09);
+    if !sweep_mode(tier) {
+        crate::budgets_corr::cases_c09(&mut o, &mut rng.fork(), tier == "thorough");
+    }
     let mut progs = corpus::programs(&["tests/target", "tests/source"]);
     progs.retain(|p| !p.src.trim().is_empty());
     let (uni, its) = universe_elems(&progs);
@@ -171,6 +175,9 @@ pub fn run(tier: &str, seed: u64, out: &Path) -> i32 {
                 }
             }
         }
+        if let Ok(f) = std::env::var("C09_SWEEP_FILTER") {
+            all.retain(|e| e.id.contains(&f) || cfg_text(&e.cfg).contains(&f));
+        }
         eprintln!("{} elements", all.len());
         for chunk in all.chunks(200_000) {
             let res = compare_all(chunk, out, timeout);
@@ -193,7 +200,7 @@ pub fn run(tier: &str, seed: u64, out: &Path) -> i32 {
         // it is measured in sweep mode, see corpus/c09_fixdiff.txt)
         chosen.extend(clean.iter().filter(|e| e.base.ends_with("|base")).map(|e| (*e).clone()));
         let rest: Vec<&&Elem> = clean.iter().filter(|e| !e.base.ends_with("|base")).collect();
-        for _ in 0..(if thorough { 150_000usize } else { 8000 }).min(rest.len()) {
+        for _ in 0..(if thorough { 150_000usize } else { 20000 }).min(rest.len()) {
             chosen.push((**rng.pick(&rest)).clone());
         }
         // boundary family: the widths next to the lengths of the lines of the item's own output at max_width 200
@@ -207,7 +214,7 @@ pub fn run(tier: &str, seed: u64, out: &Path) -> i32 {
             }
         }
         o.count_n("bw:planned (item, width) pairs", pairs.len() as u64);
-        let take: Vec<(usize, usize)> = if thorough { pairs } else { (0..8000usize.min(pairs.len())).map(|_| *rng.pick(&pairs)).collect() };
+        let take: Vec<(usize, usize)> = if thorough { pairs } else { (0..12000usize.min(pairs.len())).map(|_| *rng.pick(&pairs)).collect() };
         for (i, w) in take {
             for e in boundary_elems(&its[i], w) {
                 if listed.contains(&e.id) {
@@ -231,7 +238,7 @@ pub fn run(tier: &str, seed: u64, out: &Path) -> i32 {
         for (base, ix) in &by_base {
             if let (Some(a), Some(b), Some(c)) = (ix[0], ix[1], ix[2]) {
                 let r = [&res[a].wt, &res[b].wt, &res[c].wt];
-                if r.iter().any(|x| x.status == Status::Timeout) {
+                if r.iter().any(|x| x.status == Status::Timeout || matches!(x.status, Status::Infra(_))) {
                     o.count("a:timeout");
                     continue;
                 }
@@ -405,12 +412,16 @@ pub fn run(tier: &str, seed: u64, out: &Path) -> i32 {
         }
     }
     o.count_n("cases_where_2021_and_2024_differ", nontrivial);
-    o.notes.push("fixed universe: C02's universe (fixtures x {base, 7 widths, every option single, 3 name-seeded re-layouts}) and the boundary universe (items x max_width 20..200), each element under the four released style editions; the elements on which the working tree differs from the pinned release because of the repairs made during this audit are enumerated in corpus/c09_fixdiff.txt and run as probe c09-fixdiff; quick runs every base element, 8000 seeded other elements and 8000 seeded boundary pairs; thorough every base element, 150000 seeded other elements and every planned boundary pair (about 20000); plus generated import groups".into());
+    o.notes.push("fixed universe: C02's universe (fixtures x {base, 7 widths, every option single, 3 name-seeded re-layouts}) and the boundary universe (items x max_width 20..200), each element under the four released style editions; the elements on which the working tree differs from the pinned release because of the repairs made during this audit are enumerated in corpus/c09_fixdiff.txt and run as probe c09-fixdiff; quick runs every base element, 20000 seeded other elements and 12000 seeded boundary pairs; thorough every base element, 150000 seeded other elements and every planned boundary pair (about 20000); plus generated import groups".into());
     let evals = o.distribution.get("b:compared").copied().unwrap_or(0) + o.distribution.get("a:compared").copied().unwrap_or(0) + o.distribution.get("bw:compared").copied().unwrap_or(0);
     o.count_n("evaluations_direct", evals);
     o.direct_evals = evals;
     o.direct_distinct = distinct.len() as u64;
     o.finish(out, jobs_n())
+}
+
+fn sweep_mode(tier: &str) -> bool {
+    tier == "sweep" || tier == "sweepb"
 }
 
 fn jobs_n() -> usize {
